@@ -1,7 +1,10 @@
 #!/bin/bash
 # Runs the repository's own test-suite (78 tests) with no verification guard defined (none exists: no hooks are used).
-set -e
-cd /repo
+# A build failure is fatal: stale test binaries must never be run.
+set -e -o pipefail
+R=${1:-/repo}
+cd "$R"
 if [ ! -f _build/build.ninja ]; then cmake -G Ninja -B _build -S . -DCMAKE_BUILD_TYPE=RelWithDebInfo -DCMAKE_CXX_FLAGS=-Wno-error >/dev/null; fi
-cmake --build _build -j"$(nproc)" 2>&1 | tail -2
+if ! cmake --build _build -j"$(nproc)" > _build/verif_build.log 2>&1; then echo "BUILD FAILED"; grep -E "error|FAILED" _build/verif_build.log | head -10 | cut -c1-300; exit 1; fi
+tail -1 _build/verif_build.log
 OMPI_ALLOW_RUN_AS_ROOT=1 OMPI_ALLOW_RUN_AS_ROOT_CONFIRM=1 ctest --test-dir _build -j8 --timeout 900 2>&1 | tail -5
